@@ -45,8 +45,8 @@ CONFIG = {
                  'root:A.U', 'root:R', 'root:G', 'root:imply', 'root:and',
                  'lnot:stripped', 'lnot:wrapped', 'kind:state', 'kind:path',
                  'kind:quantified_path',
-                 'site:pyModelChecking.CTL.model_checking:_checkStateFormula',
-                 'site:pyModelChecking.LTL.model_checking:modelcheck'],
+                 'site:pyModelChecking.CTL.model_checking:*',
+                 'site:pyModelChecking.LTL.model_checking:*'],
     'rule': ('cases = (logic, formula tree) given to '
              'get_equivalent_restricted_formula / LNot; enumerated: all CTL '
              'state formulas and all LTL path formulas of depth <=1, a '
